@@ -1243,3 +1243,576 @@ Proof.
   destruct (merge_rows files most T r s Hm Hs) as (i & f & R1 & R2 & _ & R4).
   exists i, f. split; [exact R1|]. split; [exact R2 | exact R4].
 Qed.
+
+(* ------------------------------------------------------------------ *)
+(* 7. statements in the form used by Props/C09.v                       *)
+Lemma monoid_laws : forall ng,
+  (forall a b, sadd a b = sadd b a) /\
+  (forall a b c, sadd (sadd a b) c = sadd a (sadd b c)) /\
+  (forall a, swf ng a -> sadd (szero ng) a = a /\ sadd a (szero ng) = a) /\
+  (forall a b, swf ng a -> swf ng b -> swf ng (sadd a b)) /\
+  swf ng (szero ng) /\
+  (forall D rows, rect ng rows -> swf ng (stats_of_rows D ng rows)) /\
+  (forall D, stats_of_rows D ng [] = szero ng).
+Proof.
+  intros ng. split; [exact sadd_comm|]. split; [exact sadd_assoc|].
+  split; [intros a H; split; [apply sadd_zero_l | apply sadd_zero_r]; exact H|].
+  split; [intros a b; apply sadd_wf|]. split; [apply szero_wf|].
+  split; [intros D rows; apply stats_wf | intros D; reflexivity].
+Qed.
+
+(* the work split applied to the chunk list the code really builds *)
+Lemma work_split_real : forall lookup files rows p,
+  (1 <= rows)%nat -> (1 <= p)%nat ->
+  exists wl, work_split (n_total_cells lookup files) p (all_chunks lookup 0 files rows) = Some wl /\
+             length wl = p /\ concat wl = all_chunks lookup 0 files rows /\
+             cells_of files (concat (drop_empty wl)) = concat (map f_cells (filter (overlaps lookup) files)).
+Proof.
+  intros lookup files rows p Hrows Hp.
+  destruct (all_chunks_sizes lookup rows Hrows files 0%nat) as [Hsz Htot].
+  rewrite <- Htot.
+  destruct (work_split_safe p _ Hp Hsz) as (wl & Hws & Hlen & Hcat).
+  exists wl. split; [exact Hws|]. split; [exact Hlen|]. split; [exact Hcat|].
+  rewrite concat_drop_empty, Hcat.
+  pose proof (all_chunks_cells lookup rows Hrows files []) as Hc. cbn [app length] in Hc. exact Hc.
+Qed.
+
+(* the cell -> row lookup is the taxonomy's cell -> cluster map followed by the sorted row table *)
+Lemma lookup_spec : forall leaf, NoDup (map fst leaf) ->
+  exists lookup, cell_to_row (cluster_to_row (map fst leaf)) (cell_to_cluster leaf) = Some lookup /\
+    forall cell,
+      dict_get cell lookup =
+      match dict_get cell (cell_to_cluster leaf) with
+      | Some cl => option_map Z.of_nat (zassoc cl (cluster_to_row (map fst leaf)))
+      | None => None
+      end.
+Proof.
+  intros leaf ND. pose proof (rows_by_name leaf ND) as RB. cbv zeta in RB.
+  destruct RB as (_ & _ & _ & _ & lookup & Hl & _ & H1 & H2).
+  exists lookup. split; [exact Hl|]. intros cell.
+  destruct (dict_get cell (cell_to_cluster leaf)) as [cl|] eqn:E.
+  - destruct (H1 cell cl E) as (r & Hr & Hd). rewrite Hr, Hd. reflexivity.
+  - apply H2. exact E.
+Qed.
+
+Lemma table_is_direct : forall D leaf files rows p ng,
+  NoDup (map fst leaf) -> (1 <= rows)%nat -> (1 <= p)%nat -> files_wf ng files ->
+  exists lookup,
+    (forall cell,
+      dict_get cell lookup =
+      match dict_get cell (cell_to_cluster leaf) with
+      | Some cl => option_map Z.of_nat (zassoc cl (cluster_to_row (map fst leaf)))
+      | None => None
+      end) /\
+    precompute D leaf files rows p =
+      if existsb (named lookup) (all_cells files)
+      then Ok (cluster_to_row (map fst leaf),
+               map (fun r => stats_of_rows D ng (members lookup (Z.of_nat r) (all_cells files)))
+                   (seq 0 (length leaf)))
+      else Err E_NOWORK.
+Proof.
+  intros D leaf files rows p ng ND Hr Hp Hfw.
+  destruct (precompute_equals_direct D leaf files rows p ng ND Hr Hp Hfw) as (lk & L1 & E1).
+  destruct (lookup_spec leaf ND) as (lk' & L2 & S2).
+  rewrite L1 in L2. inversion L2; subst lk'.
+  exists lk. split; [exact S2 | exact E1].
+Qed.
+
+Lemma unnamed_contribute_nothing : forall D ng lookup r cells,
+  stats_of_rows D ng (members lookup r cells) =
+  stats_of_rows D ng (members lookup r (filter (named lookup) cells)).
+Proof. intros. rewrite <- members_named. reflexivity. Qed.
+
+(* ------------------------------------------------------------------ *)
+(* 5. truncation: _convert_to_new_leaves and the grouping of the old leaves *)
+Definition anc_is (anc : Z -> option Z) (L : Z) (o : Z) : bool :=
+  match anc o with Some k => k =? L | None => false end.
+
+Lemma group_add_keys : forall g k v,
+  map fst (group_add g k v) = if zmem k (map fst g) then map fst g else map fst g ++ [k].
+Proof.
+  induction g as [|[k' vs] t IH]; intros k v; [reflexivity|].
+  cbn [group_add map fst]. rewrite zmem_cons. rewrite (Z.eqb_sym k k').
+  destruct (k' =? k) eqn:E; cbn [orb map fst]; [reflexivity|].
+  rewrite IH. destruct (zmem k (map fst t)); reflexivity.
+Qed.
+
+Lemma group_add_get : forall g k v L,
+  zassoc L (group_add g k v) =
+  if L =? k then Some (match zassoc k g with Some vs => vs ++ [v] | None => [v] end) else zassoc L g.
+Proof.
+  induction g as [|[k' vs] t IH]; intros k v L.
+  - cbn. destruct (L =? k); reflexivity.
+  - cbn [group_add]. destruct (k' =? k) eqn:E.
+    + apply Z.eqb_eq in E. subst k'. cbn [zassoc]. rewrite Z.eqb_refl.
+      destruct (L =? k); reflexivity.
+    + cbn [zassoc]. rewrite IH. rewrite (Z.eqb_sym k k'), E.
+      destruct (L =? k) eqn:E1; [|reflexivity].
+      apply Z.eqb_eq in E1. subst L. rewrite (Z.eqb_sym k k'), E. reflexivity.
+Qed.
+
+Lemma group_by_get anc : forall olds g0 g, group_by anc olds g0 = Some g ->
+  forall L, zassoc L g =
+    match zassoc L g0, filter (anc_is anc L) olds with
+    | None, [] => None
+    | None, fs => Some fs
+    | Some vs, fs => Some (vs ++ fs)
+    end.
+Proof.
+  induction olds as [|o t IH]; intros g0 g H L.
+  - cbn in H. inversion H; subst. cbn. destruct (zassoc L g); [rewrite app_nil_r|]; reflexivity.
+  - cbn [group_by] in H. destruct (anc o) as [k|] eqn:Ea; [|discriminate H].
+    rewrite (IH _ _ H L), group_add_get. cbn [filter].
+    assert (Eo : anc_is anc L o = (k =? L)) by (unfold anc_is; rewrite Ea; reflexivity).
+    rewrite Eo, (Z.eqb_sym k L). destruct (L =? k) eqn:E; [|reflexivity].
+    apply Z.eqb_eq in E. subst L.
+    destruct (zassoc k g0) as [vs|]; [rewrite <- app_assoc|]; reflexivity.
+Qed.
+
+Lemma group_by_nodup anc : forall olds g0 g, group_by anc olds g0 = Some g ->
+  NoDup (map fst g0) -> NoDup (map fst g).
+Proof.
+  induction olds as [|o t IH]; intros g0 g H ND.
+  - cbn in H. inversion H; subst. exact ND.
+  - cbn [group_by] in H. destruct (anc o) as [k|]; [|discriminate H].
+    apply (IH _ _ H). rewrite group_add_keys.
+    destruct (zmem k (map fst g0)) eqn:E; [exact ND|].
+    apply zmem_false in E. apply NoDup_app; [exact ND | constructor; [intros [] | constructor] |].
+    intros x Hx [<-|[]]. exact (E Hx).
+Qed.
+
+(* new_leaf_to_old_leaves: distinct keys, and the group of L is exactly the old leaves
+   whose ancestor is L, in their original order, and is not empty *)
+Lemma group_by_spec anc olds g : group_by anc olds [] = Some g ->
+  NoDup (map fst g) /\
+  forall L os, In (L, os) g <-> (os = filter (anc_is anc L) olds /\ os <> []).
+Proof.
+  intros H. pose proof (group_by_nodup anc olds [] g H (NoDup_nil _)) as ND.
+  split; [exact ND|]. intros L os.
+  pose proof (group_by_get anc olds [] g H L) as HG. cbn [zassoc] in HG. split.
+  - intros Hin. rewrite (zassoc_nodup_in L os g ND Hin) in HG.
+    destruct (filter (anc_is anc L) olds) as [|x fs]; [discriminate HG|].
+    inversion HG; subst. split; [reflexivity | discriminate].
+  - intros [-> Hne]. destruct (filter (anc_is anc L) olds) as [|x fs]; [contradiction|].
+    apply zassoc_in. exact HG.
+Qed.
+
+Lemma set_row_spec : forall u s buf b', set_row u s buf = Some b' ->
+  length b' = length buf /\ (u < length buf)%nat /\
+  forall r, nth_error b' r = if Nat.eqb r u then Some s else nth_error buf r.
+Proof.
+  induction u as [|k IH]; intros s [|b t] b' H; cbn in H; try discriminate H.
+  - inversion H; subst. split; [reflexivity|]. split; [cbn; lia|]. intros [|r]; reflexivity.
+  - destruct (set_row k s t) as [t'|] eqn:E; [|discriminate H]. inversion H; subst.
+    destruct (IH s t t' E) as (H1 & H2 & H3). split; [cbn; lia|]. split; [cbn; lia|].
+    intros [|r]; cbn; [reflexivity | apply H3].
+Qed.
+
+(* the summary written for one group *)
+Definition row_sum (ng : nat) (data : table) (old_c2r : list (Z * nat)) (olds : list Z) : option summary :=
+  match opt_map (fun o => dict_get o old_c2r) olds with
+  | Some src =>
+      match opt_map (fun r => nth_error data r) (map Z.to_nat (zsort (map Z.of_nat src))) with
+      | Some rows => Some (sum_rows ng rows)
+      | None => None
+      end
+  | None => None
+  end.
+
+Lemma convert_loop_spec ng data oc nc : forall groups acc T,
+  convert_loop ng data oc nc groups acc = Ok T ->
+  length T = length acc /\
+  (forall r, (forall L olds, In (L, olds) groups -> dict_get L nc <> Some r) -> nth_error T r = nth_error acc r) /\
+  (NoDup (map fst groups) ->
+   (forall L1 L2 d, dict_get L1 nc = Some d -> dict_get L2 nc = Some d -> L1 = L2) ->
+   forall L olds, In (L, olds) groups ->
+     exists dst s, dict_get L nc = Some dst /\ (dst < length acc)%nat /\
+                   row_sum ng data oc olds = Some s /\ nth_error T dst = Some s).
+Proof.
+  induction groups as [|[L0 olds0] t IH]; intros acc T H.
+  - cbn in H. inversion H; subst. split; [reflexivity|]. split; [reflexivity|]. intros _ _ L olds [].
+  - cbn [convert_loop] in H.
+    destruct (dict_get L0 nc) as [dst|] eqn:Ed; [|discriminate H].
+    destruct (opt_map (fun o => dict_get o oc) olds0) as [src|] eqn:Es; [|discriminate H].
+    destruct (opt_map (fun r => nth_error data r) (map Z.to_nat (zsort (map Z.of_nat src)))) as [rows|] eqn:Er;
+      [|discriminate H].
+    destruct (set_row dst (sum_rows ng rows) acc) as [acc'|] eqn:Ea; [|discriminate H].
+    destruct (set_row_spec _ _ _ _ Ea) as (A1 & A2 & A3).
+    destruct (IH acc' T H) as (I1 & I2 & I3).
+    split; [congruence|]. split.
+    + intros r Hr. rewrite I2.
+      * rewrite A3. destruct (Nat.eqb_spec r dst) as [->|_]; [|reflexivity].
+        exfalso. apply (Hr L0 olds0); [left; reflexivity | exact Ed].
+      * intros L olds Hin. apply (Hr L olds). right. exact Hin.
+    + intros ND Hinj L olds [Heq|Hin].
+      * inversion Heq; subst L olds. exists dst, (sum_rows ng rows).
+        split; [exact Ed|]. split; [exact A2|]. split.
+        { unfold row_sum. rewrite Es, Er. reflexivity. }
+        rewrite I2; [rewrite A3, Nat.eqb_refl; reflexivity|].
+        intros L olds Hin Hd. cbn in ND. inversion ND as [|x l Hx Hl]; subst.
+        apply Hx. rewrite (Hinj L0 L dst Ed Hd). apply (in_map fst) in Hin. exact Hin.
+      * cbn in ND. inversion ND as [|x l Hx Hl]; subst.
+        destruct (I3 Hl Hinj L olds Hin) as (d & s & D1 & D2 & D3 & D4).
+        exists d, s. split; [exact D1|]. split; [congruence|]. split; [exact D3 | exact D4].
+Qed.
+
+(* sums of rows do not depend on the order in which the rows are taken *)
+Lemma sadd_swap a b x : sadd a (sadd b x) = sadd b (sadd a x).
+Proof. rewrite <- !sadd_assoc. rewrite (sadd_comm a b). reflexivity. Qed.
+
+Lemma sum_rows_perm ng a b : Permutation a b -> sum_rows ng a = sum_rows ng b.
+Proof.
+  intros H. unfold sum_rows. induction H as [|x l l' Hp IH|x y l|l l' l'' H1 IH1 H2 IH2]; cbn.
+  - reflexivity.
+  - rewrite IH. reflexivity.
+  - apply sadd_swap.
+  - congruence.
+Qed.
+
+Lemma opt_map_perm {A B} (f : A -> option B) l l' : Permutation l l' ->
+  forall a, opt_map f l = Some a -> exists a', opt_map f l' = Some a' /\ Permutation a a'.
+Proof.
+  intros H. induction H as [|x l l' Hp IH|x y l|l l' l'' H1 IH1 H2 IH2]; intros a Ha.
+  - exists a. split; [exact Ha | reflexivity].
+  - cbn in Ha. destruct (f x) as [b|] eqn:Ex; [|discriminate Ha].
+    destruct (opt_map f l) as [t|] eqn:Et; [|discriminate Ha]. inversion Ha; subst.
+    destruct (IH t eq_refl) as (t' & E' & P'). exists (b :: t'). cbn. rewrite Ex, E'.
+    split; [reflexivity | constructor; exact P'].
+  - cbn in Ha. destruct (f y) as [by_|] eqn:Ey; [|discriminate Ha].
+    destruct (f x) as [bx|] eqn:Ex; [|discriminate Ha].
+    destruct (opt_map f l) as [t|] eqn:Et; [|discriminate Ha]. inversion Ha; subst.
+    exists (bx :: by_ :: t). cbn. rewrite Ex, Ey, Et. split; [reflexivity | apply perm_swap].
+  - destruct (IH1 a Ha) as (a1 & E1 & P1). destruct (IH2 a1 E1) as (a2 & E2 & P2).
+    exists a2. split; [exact E2 | eapply perm_trans; eassumption].
+Qed.
+
+Lemma sorted_rows_perm (src : list nat) : Permutation (map Z.to_nat (zsort (map Z.of_nat src))) src.
+Proof.
+  eapply Permutation_trans.
+  - apply Permutation_map. apply zsort_perm.
+  - rewrite map_map. rewrite (map_ext _ (fun x => x)); [rewrite map_id; reflexivity|].
+    intros x. apply Nat2Z.id.
+Qed.
+
+Lemma opt_map_map {A B} (f : A -> option B) (g : A -> B) l :
+  (forall x, In x l -> f x = Some (g x)) -> opt_map f l = Some (map g l).
+Proof.
+  induction l as [|x t IH]; intros H; [reflexivity|]. cbn.
+  rewrite (H x (or_introl eq_refl)), IH; [reflexivity|]. intros y Hy. apply H. right. exact Hy.
+Qed.
+
+Lemma opt_map_some_all {A B} (f : A -> option B) : forall l a, opt_map f l = Some a ->
+  forall x, In x l -> exists b, f x = Some b.
+Proof.
+  induction l as [|y t IH]; intros a H x Hx; [destruct Hx|].
+  cbn in H. destruct (f y) as [b|] eqn:Ey; [|discriminate H].
+  destruct (opt_map f t) as [t'|] eqn:Et; [|discriminate H].
+  destruct Hx as [<-|Hx]; [exists b; exact Ey | apply (IH t' eq_refl x Hx)].
+Qed.
+
+(* the members of a set of rows = the members of its elements, up to order *)
+Lemma members_of_cons lookup r rs cells : ~ In r rs ->
+  Permutation (members_of lookup (r :: rs) cells) (members lookup r cells ++ members_of lookup rs cells).
+Proof.
+  intros Hr. unfold members_of, members. induction cells as [|c t IH]; cbn [filter map]; [constructor|].
+  destruct (dict_get (fst c) lookup) as [r'|].
+  - rewrite zmem_cons. destruct (r' =? r) eqn:E.
+    + apply Z.eqb_eq in E. subst r'. cbn [orb map app].
+      assert (Em : zmem r rs = false) by (apply zmem_false; exact Hr). rewrite Em.
+      constructor. exact IH.
+    + cbn [orb]. destruct (zmem r' rs); cbn [map].
+      * apply Permutation_cons_app. exact IH.
+      * exact IH.
+  - exact IH.
+Qed.
+
+Lemma members_of_nil lookup cells : members_of lookup [] cells = [].
+Proof.
+  unfold members_of. induction cells as [|c t IH]; [reflexivity|]. cbn [filter].
+  destruct (dict_get (fst c) lookup); cbn; exact IH.
+Qed.
+
+Lemma members_of_rect ng lookup rs cells : cells_rect ng cells -> rect ng (members_of lookup rs cells).
+Proof.
+  unfold cells_rect, rect, members_of. intros H. induction H as [|c t Hc Ht IH]; cbn; [constructor|].
+  destruct (match dict_get (fst c) lookup with Some r => zmem r rs | None => false end); cbn.
+  - constructor; [exact Hc | exact IH].
+  - exact IH.
+Qed.
+
+(* collapsing rows that hold the statistics of disjoint groups of cells gives the
+   statistics of the union of the groups: additivity at work *)
+Lemma sum_of_stats D ng lookup cells : cells_rect ng cells -> forall rs, NoDup rs ->
+  sum_rows ng (map (fun r => stats_of_rows D ng (members lookup r cells)) rs)
+  = stats_of_rows D ng (members_of lookup rs cells).
+Proof.
+  intros Hc. induction rs as [|r t IH]; intros ND.
+  - cbn. rewrite members_of_nil. reflexivity.
+  - inversion ND as [|x l Hx Hl]; subst. cbn [map sum_rows fold_right].
+    change (fold_right sadd (szero ng) ?l) with (sum_rows ng l). rewrite (IH Hl).
+    rewrite <- stats_additive; [| apply members_rect; exact Hc | apply members_of_rect; exact Hc].
+    symmetry. apply stats_perm; [apply members_of_rect; exact Hc|].
+    apply members_of_cons. exact Hx.
+Qed.
+
+(* the row written for a group, when the input table is the direct table of the old leaves *)
+Lemma row_sum_direct D nc ng lookup cells oc olds s :
+  cells_rect ng cells ->
+  row_sum ng (direct D nc ng lookup cells) oc olds = Some s ->
+  exists src, opt_map (fun o => dict_get o oc) olds = Some src /\
+              Forall (fun r => (r < nc)%nat) src /\
+              (NoDup src -> s = stats_of_rows D ng (members_of lookup (map Z.of_nat src) cells)).
+Proof.
+  intros Hc H. unfold row_sum in H.
+  destruct (opt_map (fun o => dict_get o oc) olds) as [src|] eqn:Es; [|discriminate H].
+  destruct (opt_map (fun r => nth_error (direct D nc ng lookup cells) r)
+                    (map Z.to_nat (zsort (map Z.of_nat src)))) as [rows|] eqn:Er; [|discriminate H].
+  inversion H; subst s. exists src. split; [reflexivity|].
+  destruct (opt_map_perm _ _ _ (sorted_rows_perm src) rows Er) as (rows' & Er' & Pr).
+  assert (Hlt : Forall (fun r => (r < nc)%nat) src).
+  { apply Forall_forall. intros r Hr. destruct (opt_map_some_all _ _ _ Er' r Hr) as (b & Hb).
+    rewrite <- (direct_length D nc ng lookup cells). apply nth_error_Some. congruence. }
+  split; [exact Hlt|]. intros ND.
+  rewrite (sum_rows_perm ng rows rows' Pr).
+  assert (Erows : rows' = map (fun r => stats_of_rows D ng (members lookup (Z.of_nat r) cells)) src).
+  { rewrite (opt_map_map _ (fun r => stats_of_rows D ng (members lookup (Z.of_nat r) cells)) src) in Er'.
+    - inversion Er'. reflexivity.
+    - intros r Hr. rewrite Forall_forall in Hlt. apply direct_row. apply Hlt. exact Hr. }
+  rewrite Erows. rewrite <- (map_map Z.of_nat (fun z => stats_of_rows D ng (members lookup z cells))).
+  apply sum_of_stats; [exact Hc|].
+  apply FinFun.Injective_map_NoDup; [intros a b; apply Nat2Z.inj | exact ND].
+Qed.
+
+Lemma dict_get_nodup {A} k (d : list (Z * A)) : NoDup (map fst d) -> dict_get k d = zassoc k d.
+Proof.
+  intros ND. unfold dict_get. destruct (zassoc k d) as [v|] eqn:E.
+  - apply zassoc_in in E. apply zassoc_nodup_in.
+    + rewrite map_rev. apply NoDup_rev. exact ND.
+    + apply (proj1 (in_rev d (k, v))). exact E.
+  - apply zassoc_none. apply zassoc_none in E. intros H. apply E. rewrite map_rev in H. apply in_rev in H. exact H.
+Qed.
+
+Lemma truncate_inv ng old_tree new_hier old_c2r data nt nc T :
+  truncate ng old_tree new_hier old_c2r data = Ok (nt, nc, T) ->
+  exists hier', 
+    drop_levels old_tree (seq 0 (length old_tree))
+                (filter (fun l => negb (nat_mem l new_hier)) (seq 0 (length old_tree))) = Ok (nt, hier') /\
+    ((last hier' 0%nat = (length old_tree - 1)%nat /\ nc = old_c2r /\ T = data) \/
+     (last hier' 0%nat <> (length old_tree - 1)%nat /\
+      nc = combine (nodes (leaf_level nt)) (seq 0 (length (nodes (leaf_level nt)))) /\
+      exists groups,
+        group_by (ancestor_at old_tree (last hier' 0%nat)) (nodes (leaf_level old_tree)) [] = Some groups /\
+        convert_to_new_leaves ng data old_c2r nc groups = Ok T)).
+Proof.
+  unfold truncate. cbv zeta. intros H.
+  destruct (list_eq_dec Nat.eq_dec new_hier (seq 0 (length old_tree))); [discriminate H|].
+  destruct (negb (forallb (fun l => nat_mem l (seq 0 (length old_tree))) new_hier)); [discriminate H|].
+  destruct (negb (nat_sorted_b new_hier)); [discriminate H|].
+  destruct (filter (fun l => negb (nat_mem l new_hier)) (seq 0 (length old_tree))) as [|d0 ds] eqn:Ef;
+    [discriminate H|].
+  unfold bind in H.
+  destruct (drop_levels old_tree (seq 0 (length old_tree)) (d0 :: ds)) as [[nt' hier']|c] eqn:Ed; [|discriminate H].
+  exists hier'.
+  destruct (Nat.eqb_spec (last hier' 0%nat) (length old_tree - 1)) as [El|El].
+  - inversion H; subst. split; [reflexivity|]. left. auto.
+  - destruct (group_by (ancestor_at old_tree (last hier' 0%nat)) (nodes (leaf_level old_tree)) []) as [groups|] eqn:Eg;
+      [|discriminate H].
+    destruct (convert_to_new_leaves ng data old_c2r
+                (combine (nodes (leaf_level nt')) (seq 0 (length (nodes (leaf_level nt'))))) groups) as [d|c] eqn:Ec;
+      [|discriminate H].
+    inversion H; subst. split; [reflexivity|]. right. split; [exact El|]. split; [reflexivity|].
+    exists groups. split; [reflexivity | exact Ec].
+Qed.
+
+Lemma opt_map_inj_nodup {A} (f : Z -> option A) : forall l a,
+  (forall x y v, In x l -> In y l -> f x = Some v -> f y = Some v -> x = y) ->
+  NoDup l -> opt_map f l = Some a -> NoDup a.
+Proof.
+  induction l as [|x t IH]; intros a Hinj ND H.
+  - inversion H. constructor.
+  - cbn in H. destruct (f x) as [b|] eqn:Ex; [|discriminate H].
+    destruct (opt_map f t) as [t'|] eqn:Et; [|discriminate H]. inversion H; subst.
+    inversion ND as [|x0 l0 Hx Hl]; subst. constructor.
+    + intros Hb. clear IH H.
+      assert (Hex : exists y, In y t /\ f y = Some b).
+      { clear Hinj Hx Hl ND Ex. revert t' Et Hb. induction t as [|y t IHt]; intros t' Et Hb.
+        - inversion Et; subst. destruct Hb.
+        - cbn in Et. destruct (f y) as [c|] eqn:Ey; [|discriminate Et].
+          destruct (opt_map f t) as [t''|] eqn:Et'; [|discriminate Et]. inversion Et; subst.
+          destruct Hb as [->|Hb].
+          + exists y. split; [left; reflexivity | exact Ey].
+          + destruct (IHt t'' eq_refl Hb) as (z & Hz & Fz). exists z. split; [right; exact Hz | exact Fz]. }
+      destruct Hex as (y & Hy & Fy). apply Hx.
+      rewrite (Hinj x y b (or_introl eq_refl) (or_intror Hy) Ex Fy). exact Hy.
+    + apply (IH t'); [|exact Hl | reflexivity].
+      intros u w v Hu Hw. apply Hinj; right; assumption.
+Qed.
+
+Lemma c2r_injective {A} (d : list (Z * A)) :
+  NoDup (map fst d) -> NoDup (map snd d) ->
+  forall x y v, dict_get x d = Some v -> dict_get y d = Some v -> x = y.
+Proof.
+  intros N1 N2 x y v Hx Hy. rewrite (dict_get_nodup x _ N1) in Hx. rewrite (dict_get_nodup y _ N1) in Hy.
+  apply zassoc_in in Hx, Hy. clear N1.
+  induction d as [|[k w] t IH]; [destruct Hx|].
+  cbn in N2. inversion N2 as [|a l Ha Hl]; subst.
+  destruct Hx as [Hx|Hx]; destruct Hy as [Hy|Hy].
+  - congruence.
+  - inversion Hx; subst. exfalso. apply Ha. apply (in_map snd) in Hy. exact Hy.
+  - inversion Hy; subst. exfalso. apply Ha. apply (in_map snd) in Hx. exact Hx.
+  - apply IH; assumption.
+Qed.
+
+Lemma nth_error_tzero nc ng r : (r < nc)%nat -> nth_error (tzero nc ng) r = Some (szero ng).
+Proof.
+  unfold tzero. revert r. induction nc as [|n IH]; intros r H; [lia|].
+  destruct r as [|r]; cbn; [reflexivity | apply IH; lia].
+Qed.
+
+(* c09_truncation (table level).  Input table = the direct table of the old leaves.
+   Either the leaf level is kept (table and row map unchanged), or: the new row map lists
+   the new leaves in the new tree's order, and the row of EVERY new leaf L is the
+   statistics of all cells sitting in rows of old leaves whose ancestor (in the OLD tree,
+   at the level that became the leaf level) is L — zero when there is none. *)
+Lemma truncation_core : forall D nc0 ng lookup cells old_tree new_hier old_c2r nt nc T,
+  cells_rect ng cells ->
+  NoDup (nodes (leaf_level old_tree)) -> NoDup (map fst old_c2r) -> NoDup (map snd old_c2r) ->
+  NoDup (nodes (leaf_level nt)) ->
+  truncate ng old_tree new_hier old_c2r (direct D nc0 ng lookup cells) = Ok (nt, nc, T) ->
+  exists hier',
+    drop_levels old_tree (seq 0 (length old_tree))
+                (filter (fun l => negb (nat_mem l new_hier)) (seq 0 (length old_tree))) = Ok (nt, hier') /\
+    ((last hier' 0%nat = (length old_tree - 1)%nat /\ nc = old_c2r /\ T = direct D nc0 ng lookup cells) \/
+     (last hier' 0%nat <> (length old_tree - 1)%nat /\
+      nc = combine (nodes (leaf_level nt)) (seq 0 (length (nodes (leaf_level nt)))) /\
+      length T = length (nodes (leaf_level nt)) /\
+      forall L dst, dict_get L nc = Some dst ->
+        exists src,
+          opt_map (fun o => dict_get o old_c2r)
+                  (filter (anc_is (ancestor_at old_tree (last hier' 0%nat)) L) (nodes (leaf_level old_tree))) = Some src /\
+          nth_error T dst = Some (stats_of_rows D ng (members_of lookup (map Z.of_nat src) cells)))).
+Proof.
+  intros D nc0 ng lookup cells old_tree new_hier old_c2r nt nc T Hc NDo N1 N2 NDn H.
+  destruct (truncate_inv _ _ _ _ _ _ _ _ H) as (hier' & Hdrop & [(E0 & E1 & E2)|(El & Enc & groups & Eg & Ecv)]).
+  - exists hier'. split; [exact Hdrop|]. left. auto.
+  - exists hier'. split; [exact Hdrop|]. right. split; [exact El|]. split; [exact Enc|].
+    set (anc := ancestor_at old_tree (last hier' 0%nat)) in *.
+    set (newl := nodes (leaf_level nt)) in *.
+    destruct (group_by_spec anc _ groups Eg) as (NDg & Hg).
+    unfold convert_to_new_leaves in Ecv.
+    destruct (convert_loop_spec ng _ old_c2r nc groups _ T Ecv) as (C1 & C2 & C3).
+    assert (Hlen : length nc = length newl).
+    { rewrite Enc, combine_length, seq_length. apply Nat.min_id. }
+    unfold tzero in C1. rewrite repeat_length in C1.
+    assert (NDnc : NoDup (map fst nc)).
+    { rewrite Enc. rewrite map_fst_combine; [exact NDn | rewrite seq_length; reflexivity]. }
+    assert (Hinj : forall L1 L2 d, dict_get L1 nc = Some d -> dict_get L2 nc = Some d -> L1 = L2).
+    { intros L1 L2 d H1 H2. rewrite (dict_get_nodup L1 _ NDnc) in H1. rewrite (dict_get_nodup L2 _ NDnc) in H2.
+      pose proof (c2r_generic newl NDn) as G. cbv zeta in G. destruct G as [_ G2].
+      rewrite Enc in H1, H2. exact (G2 L1 L2 d H1 H2). }
+    split; [congruence|].
+    intros L dst Hd.
+    assert (Hdst : (dst < length newl)%nat).
+    { rewrite (dict_get_nodup _ _ NDnc) in Hd. rewrite Enc in Hd. apply zassoc_combine_seq_lt in Hd. exact Hd. }
+    destruct (filter (anc_is anc L) (nodes (leaf_level old_tree))) as [|o os] eqn:Ef.
+    + exists []. split; [reflexivity|]. cbn [map]. rewrite members_of_nil, stats_nil.
+      rewrite C2.
+      * apply (nth_error_tzero _ ng dst). rewrite Hlen. exact Hdst.
+      * intros L' olds' Hin Hd'. pose proof (Hinj L' L dst Hd' Hd) as ->.
+        apply Hg in Hin. destruct Hin as [E Hne]. rewrite Ef in E. contradiction.
+    + assert (Hin : In (L, o :: os) groups) by (apply Hg; rewrite Ef; split; [reflexivity | discriminate]).
+      destruct (C3 NDg Hinj L (o :: os) Hin) as (d & s & D1 & _ & D3 & D4).
+      rewrite Hd in D1. inversion D1; subst d.
+      destruct (row_sum_direct D nc0 ng lookup cells old_c2r (o :: os) s Hc D3) as (src & S1 & _ & S3).
+      exists src. split; [exact S1|]. rewrite D4. f_equal. apply S3.
+      apply (opt_map_inj_nodup (fun o0 => dict_get o0 old_c2r) (o :: os) src); [| |exact S1].
+      * intros x y v _ _. apply (c2r_injective old_c2r N1 N2).
+      * rewrite <- Ef. apply NoDup_filter. exact NDo.
+Qed.
+
+Lemma filter_all_true {A} (f : A -> bool) l : (forall x, In x l -> f x = true) -> filter f l = l.
+Proof.
+  induction l as [|x t IH]; intros H; [reflexivity|]. cbn.
+  rewrite (H x (or_introl eq_refl)), IH; [reflexivity|]. intros y Hy. apply H. right. exact Hy.
+Qed.
+
+(* the hierarchy left after the drops = the old levels that are wanted, in order *)
+Lemma index_of_remove : forall hier lv pos, NoDup hier -> index_of lv hier = Some pos ->
+  remove_nth pos hier = filter (fun x => negb (Nat.eqb x lv)) hier.
+Proof.
+  induction hier as [|y t IH]; intros lv pos ND H; [discriminate H|].
+  inversion ND as [|y0 t0 Hy Ht]; subst. cbn [index_of] in H. cbn [filter].
+  destruct (Nat.eqb_spec lv y) as [->|Hne].
+  - inversion H; subst pos. cbn [remove_nth]. rewrite Nat.eqb_refl. cbn [negb].
+    symmetry. apply filter_all_true. intros x Hx.
+    apply negb_true_iff. apply Nat.eqb_neq. intros ->. exact (Hy Hx).
+  - destruct (index_of lv t) as [p|] eqn:Ep; [|discriminate H]. cbn in H. inversion H; subst pos.
+    cbn [remove_nth]. rewrite (IH lv p Ht Ep).
+    destruct (Nat.eqb_spec y lv) as [->|_]; [contradiction|]. reflexivity.
+Qed.
+
+Lemma filter_filter' {A} (f g : A -> bool) l : filter f (filter g l) = filter (fun x => g x && f x) l.
+Proof.
+  induction l as [|x t IH]; [reflexivity|]. cbn. destruct (g x); cbn; [destruct (f x)|]; rewrite IH; reflexivity.
+Qed.
+
+Lemma drop_levels_hier : forall to_drop t hier t' hier', NoDup hier ->
+  drop_levels t hier to_drop = Ok (t', hier') ->
+  hier' = filter (fun x => negb (nat_mem x to_drop)) hier.
+Proof.
+  induction to_drop as [|lv rest IH]; intros t hier t' hier' ND H.
+  - cbn in H. inversion H; subst. symmetry. apply filter_all_true. reflexivity.
+  - cbn [drop_levels] in H. destruct (index_of lv hier) as [pos|] eqn:Ei; [|discriminate H].
+    destruct (if Nat.eqb (S pos) (length hier) then drop_leaf_level t else drop_level t pos) as [t1|c];
+      [|discriminate H].
+    rewrite (index_of_remove hier lv pos ND Ei) in H.
+    rewrite (IH t1 _ t' hier' (NoDup_filter _ ND) H). rewrite filter_filter'.
+    apply filter_ext. intros x. unfold nat_mem. cbn [existsb]. rewrite negb_orb. reflexivity.
+Qed.
+
+Lemma nat_mem_in x l : nat_mem x l = true <-> In x l.
+Proof.
+  unfold nat_mem. rewrite existsb_exists. split.
+  - intros (y & Hy & E). apply Nat.eqb_eq in E. subst. exact Hy.
+  - intros H. exists x. split; [exact H | apply Nat.eqb_refl].
+Qed.
+
+Lemma kept_levels n new_hier :
+  filter (fun x => negb (nat_mem x (filter (fun l => negb (nat_mem l new_hier)) (seq 0 n)))) (seq 0 n)
+  = filter (fun l => nat_mem l new_hier) (seq 0 n).
+Proof.
+  apply filter_ext_in. intros x Hx.
+  destruct (nat_mem x new_hier) eqn:E.
+  - apply negb_true_iff. destruct (nat_mem x (filter _ (seq 0 n))) eqn:E2; [|reflexivity].
+    apply nat_mem_in in E2. apply filter_In in E2. destruct E2 as [_ E2]. rewrite E in E2. discriminate E2.
+  - apply negb_false_iff. apply nat_mem_in. apply filter_In. split; [exact Hx|]. rewrite E. reflexivity.
+Qed.
+
+(* c09_truncation (table level).  Input table = the direct table of the old leaves; lvl =
+   the deepest old level that is kept.  Either lvl is the old leaf level (table and row map
+   unchanged), or: the new row map lists the new leaves in the new tree's order, and the row
+   of EVERY new leaf L is the statistics of all cells sitting in rows of old leaves whose
+   ancestor at level lvl of the OLD tree is L - zero when there is none. *)
+Lemma truncation_collapse : forall D nc0 ng lookup cells old_tree new_hier old_c2r nt nc T,
+  cells_rect ng cells ->
+  NoDup (nodes (leaf_level old_tree)) -> NoDup (map fst old_c2r) -> NoDup (map snd old_c2r) ->
+  NoDup (nodes (leaf_level nt)) ->
+  truncate ng old_tree new_hier old_c2r (direct D nc0 ng lookup cells) = Ok (nt, nc, T) ->
+  let lvl := last (filter (fun l => nat_mem l new_hier) (seq 0 (length old_tree))) 0%nat in
+  (lvl = (length old_tree - 1)%nat /\ nc = old_c2r /\ T = direct D nc0 ng lookup cells) \/
+  (lvl <> (length old_tree - 1)%nat /\
+    nc = combine (nodes (leaf_level nt)) (seq 0 (length (nodes (leaf_level nt)))) /\
+    length T = length (nodes (leaf_level nt)) /\
+    forall L dst, dict_get L nc = Some dst ->
+      exists src,
+        opt_map (fun o => dict_get o old_c2r)
+                (filter (anc_is (ancestor_at old_tree lvl) L) (nodes (leaf_level old_tree))) = Some src /\
+        nth_error T dst = Some (stats_of_rows D ng (members_of lookup (map Z.of_nat src) cells))).
+Proof.
+  intros D nc0 ng lookup cells old_tree new_hier old_c2r nt nc T Hc NDo N1 N2 NDn H lvl.
+  destruct (truncation_core D nc0 ng lookup cells old_tree new_hier old_c2r nt nc T Hc NDo N1 N2 NDn H)
+    as (hier' & Hd & Hcase).
+  apply drop_levels_hier in Hd; [|apply seq_NoDup]. rewrite kept_levels in Hd.
+  assert (El : last hier' 0%nat = lvl) by (rewrite Hd; reflexivity).
+  rewrite El in Hcase. exact Hcase.
+Qed.
